@@ -9,6 +9,7 @@ struct P : public colvarparse {
   using colvarparse::data_end_pos;
   using colvarparse::strip_values;
   using colvarparse::allowed_keywords;
+  using colvarparse::get_key_string_multi_value;
 };
 
 static std::string unhex(std::string const &s)
@@ -210,7 +211,6 @@ static void unit_loop()
 {
   vsim_engine eng; eng.resize(1);
   vsim_proxy *proxy = new vsim_proxy(&eng, true);
-  (void) proxy;
   std::string line;
   while (std::getline(std::cin, line)) {
     std::istringstream is(line);
@@ -255,6 +255,35 @@ static void unit_loop()
         std::vector<NItem> items = (a[1] == "-") ? std::vector<NItem>() : parse_nested_schema(a[1], pos);
         if (colvarparse::check_braces(conf, 0) != COLVARS_OK) out = "reject";
         else out = nested_level(items, conf) ? "accept" : "reject";
+      } else if (cmd == "IX") {
+        // colvarmodule::read_index_file on a file with the given bytes
+        static int ixn = 0;
+        std::string fname = "c09_index_" + cvm::to_str(++ixn) + ".ndx";
+        { std::ofstream f(fname.c_str(), std::ios::binary); f << unhex(a[0]); }
+        colvarmodule *cv = cvm::main();
+        cv->reset_index_groups();
+        int rc = cv->read_index_file(fname.c_str());
+        if (rc != COLVARS_OK || cvm::get_error() != COLVARS_OK) out = "error";
+        else {
+          out = "ok ";
+          for (size_t i = 0; i < cv->index_group_names.size(); i++) {
+            out += (i ? ";" : "") + hex(cv->index_group_names[i]) + "=";
+            for (size_t j = 0; j < cv->index_groups[i]->size(); j++) out += (j ? "," : "") + cvm::to_str((*cv->index_groups[i])[j]);
+          }
+        }
+        proxy->close_input_stream(fname);
+        cv->reset_index_groups();
+        std::remove(fname.c_str());
+      } else if (cmd == "TL") {
+        out = hex(colvarparse::to_lower_cppstr(unhex(a[0])));
+      } else if (cmd == "CA") {
+        out = (colvarparse::check_ascii(unhex(a[0])) == COLVARS_OK) ? "ok" : "error";
+      } else if (cmd == "KM") {
+        P p;
+        std::vector<std::string> data;
+        bool f = p.get_key_string_multi_value(unhex(a[0]), unhex(a[1]).c_str(), data);
+        out = (cvm::get_error() != COLVARS_OK) ? "error " : (f ? "found " : "notfound ");
+        for (size_t i = 0; i < data.size(); i++) out += (i ? "|" : "") + hex(data[i]);
       } else if (cmd == "KS") {
         // successive key_lookup calls on ONE parser object, through ONE std::string object (same address every time)
         P p;
